@@ -17,6 +17,7 @@ from functools import cmp_to_key
 from ufl.argument import Argument
 from ufl.coefficient import Coefficient
 from ufl.constantvalue import Zero
+from ufl.core.base_form_operator import BaseFormOperator
 from ufl.core.multiindex import FixedIndex, MultiIndex
 from ufl.variable import Label
 
@@ -150,6 +151,13 @@ _terminal_cmps[Coefficient._ufl_typecode_] = _cmp_coefficient
 _terminal_cmps[Label._ufl_typecode_] = _cmp_label
 
 
+def _cmp_base_form_operator(a, b):
+    """Cmp the data of base form operators that is not held by their operands."""
+    x = (a.derivatives, repr(a.ufl_function_space()), tuple(map(repr, a.argument_slots())))
+    y = (b.derivatives, repr(b.ufl_function_space()), tuple(map(repr, b.argument_slots())))
+    return -1 if x < y else (0 if x == y else 1)
+
+
 def cmp_expr(a, b):
     """Replacement for cmp(a, b), removed in Python 3, for Expr objects."""
     if a is b:
@@ -213,6 +221,12 @@ def cmp_expr(a, b):
             x, y = len(aops), len(bops)
             if x != y:
                 return -1 if x < y else 1
+
+            # Base form operators differ by more than their operands
+            if isinstance(a, BaseFormOperator):
+                c = _cmp_base_form_operator(a, b)
+                if c:
+                    return c
 
         # Keep track of equal subexpressions
         equal_pairs.add((id(pair[0]), id(pair[1])))
